@@ -1,5 +1,6 @@
 import Pms.Model.Neigh
 import Pms.Lemmas.Pbc
+import Pms.Props.C02
 import Mathlib.Data.List.Perm.Basic
 import Mathlib.Data.List.Nodup
 import Mathlib.Data.List.Range
@@ -273,4 +274,43 @@ theorem isNNearest_unique {key : ℕ → K} {n i N : ℕ} {L L' : List ℕ}
   exact List.Perm.eq_of_pairwise (le := fun a b => key a < key b) hasymm h.sorted h'.sorted hperm
 
 end Lists
+
+section Geometry
+variable {K : Type} [Field K] [LinearOrder K] [IsStrictOrderedRing K]
+open Finset Pms.Pbc
+
+theorem dist2_nonneg (d : ℕ) (rint : K → ℤ) (H Hinv : ℕ → ℕ → K) (ppp : ℕ → K) (pos : ℕ → ℕ → K)
+    (i j : ℕ) : 0 ≤ dist2 d rint H Hinv ppp pos i j := by
+  unfold dist2
+  simp only [sumRange_eq]
+  exact Finset.sum_nonneg fun k _ => mul_self_nonneg _
+
+theorem dist2_self (d : ℕ) (rint : K → ℤ) (hr : IsRintHE rint) (H Hinv : ℕ → ℕ → K) (ppp : ℕ → K)
+    (pos : ℕ → ℕ → K) (i : ℕ) : dist2 d rint H Hinv ppp pos i i = 0 := by
+  have h0 : rint 0 = 0 := hr.zero 0 (by simp)
+  unfold dist2 removePbc vecMul
+  simp [sumRange_eq, h0]
+
+/-- the squared minimum-image distance is symmetric (odd symmetry of `remove_pbc`, C02) -/
+theorem dist2_symm (d : ℕ) (rint : K → ℤ) (hr : IsRintHE rint) (H Hinv : ℕ → ℕ → K) (ppp : ℕ → K)
+    (pos : ℕ → ℕ → K) (i j : ℕ) :
+    dist2 d rint H Hinv ppp pos i j = dist2 d rint H Hinv ppp pos j i := by
+  unfold dist2
+  have e : (fun k => pos j k - pos i k) = (fun k => - (pos i k - pos j k)) := by
+    funext k; ring
+  simp only [e, C02_odd d rint hr H Hinv ppp]
+  simp only [sumRange_eq]
+  exact Finset.sum_congr rfl fun k _ => by ring
+
+/-- without ties among the distances from `i`, every other particle is strictly farther than `i` itself -/
+theorem self_closest (d : ℕ) (rint : K → ℤ) (hr : IsRintHE rint) (H Hinv : ℕ → ℕ → K) (ppp : ℕ → K)
+    (pos : ℕ → ℕ → K) (n i : ℕ) (hi : i < n)
+    (hinj : ∀ a < n, ∀ b < n, dist2 d rint H Hinv ppp pos i a = dist2 d rint H Hinv ppp pos i b → a = b) :
+    ∀ j < n, j ≠ i → dist2 d rint H Hinv ppp pos i i < dist2 d rint H Hinv ppp pos i j := by
+  intro j hj hji
+  rw [dist2_self d rint hr]
+  refine lt_of_le_of_ne (dist2_nonneg ..) fun e => hji ?_
+  exact hinj j hj i hi (by rw [dist2_self d rint hr, ← e])
+
+end Geometry
 end Pms.Neigh
